@@ -31,6 +31,60 @@ def small_blocks(max_len):
             yield list(t)
 
 
+DEP_VOCAB = [("SLOAD", None), ("MLOAD", None), ("SSTORE", None), ("MSTORE", None), ("ISZERO", None), ("NOT", None),
+             ("DUP1", None), ("DUP2", None), ("SWAP1", None), ("PUSH", "0"), ("PUSH", "1"), ("ADD", None), ("POP", None),
+             ("KECCAK256", None), ("MSTORE8", None)]
+
+
+def dep_blocks(rnd, n):
+    """short blocks (3-5 items) with at least one load and one store: the instances where dependency
+    constraints, position bounds and pruning interact"""
+    out, seen = [], set()
+    guard = 0
+
+    def templated():
+        # statements: a load whose result stays on the stack, a store independent of it (same or other location),
+        # in either order, optionally a unary operation on the loaded value
+        mem = rnd.random() < 0.6
+        ld, st = ("MLOAD", rnd.choice(["MSTORE", "MSTORE", "MSTORE8"])) if mem else ("SLOAD", "SSTORE")
+        if rnd.random() < 0.15:
+            ld, st = rnd.choice([("MLOAD", "SSTORE"), ("SLOAD", "MSTORE")])
+        addr = lambda: rnd.choice([[("PUSH", "0")], [("PUSH", "1")], [("DUP1", None)], [("DUP2", None)]])
+        val = lambda: rnd.choice([[("PUSH", "1")], [("PUSH", "0")], [("DUP1", None)], [("DUP2", None)]])
+        load = addr() + [(ld, None)] + ([(rnd.choice(["ISZERO", "NOT"]), None)] if rnd.random() < 0.3 else [])
+        store = val() + addr() + [(st, None)]
+        r = rnd.random()
+        if r < 0.45:
+            return load + store
+        if r < 0.75:
+            return store + load
+        if r < 0.9:
+            return load + [("SWAP1", None)] + store
+        return load + store + addr() + [(ld, None)]
+    while len(out) < n and guard < 200 * n:
+        guard += 1
+        if rnd.random() < 0.7:
+            b = templated()
+        else:
+            k = rnd.randrange(3, 6)
+            b = [rnd.choice(DEP_VOCAB) for _ in range(k)]
+        names = [x[0] for x in b]
+        if not any(x in names for x in ("SLOAD", "MLOAD", "KECCAK256")) or not any(x in names for x in ("SSTORE", "MSTORE", "MSTORE8")):
+            continue
+        t = tuple(b)
+        if t in seen:
+            continue
+        try:
+            need, _ = evm.stack_effect(b)
+        except KeyError:
+            continue
+        if need > 4 or len(b) > 7:
+            continue
+        seen.add(t)
+        out.append(b)
+    return out
+
+
 def encode(key, S, params):
     """run the real encoder; returns (BlockOptimizer, smt2 text)"""
     from smt_encoding.block_optimizer import BlockOptimizer
@@ -63,7 +117,11 @@ def check_instance(key, S, seg, params, opts, viols, cap, want_cost=False):
     _count("assertions_checked", meta.get("asserts", 0) + meta.get("soft", 0))
     if problems:
         import re
-        cls = re.sub(r"\b[a-z]+_\d+(_\d+)?\b", "<sym>", problems[0])
+        neg = [q for q in problems if re.search(r"undeclared symbol [a-z]+_-\d", q)]
+        if neg and len(neg) * 2 >= len([q for q in problems if q.startswith("undeclared")]):
+            cls = "undeclared stack variable with a negative position (stack bound %d)" % S["max_sk_sz"]
+        else:
+            cls = re.sub(r"\b([a-z]+)_-?\d+(_-?\d+)?\b", r"\1_<i>", problems[0])
         viols.append({"fingerprint": "SMT-LIB text not well formed: " + cls,
                       "witness": {"segment": evm.to_plain_string(seg), "opts": opts, "problems": problems[:5]}})
         return info
@@ -174,7 +232,7 @@ def handle(case):
     sample = None
     for key, S, seg in specs:
         b0 = S["init_progr_len"]
-        if b0 <= 0 or b0 > case.get("max_b0", 5) or S["max_sk_sz"] > 8:
+        if b0 <= 0 or b0 > case.get("max_b0", 6) or S["max_sk_sz"] > 8:
             _count("skipped_out_of_family")
             continue
         info = check_instance(key, S, seg, params, opts, viols, case.get("cap", 3000))
@@ -224,6 +282,8 @@ def build_cases(quick, seed):
         g = " ".join(o)
         for bi, b in enumerate(allb[oi * 7 % 50:][:n_small]):
             cases.append({"block": b, "opts": o, "_group": g, "kind": "small-exhaustive-family", "process": bi < 3, "_cpu": 60})
+        for b in dep_blocks(random.Random(seed + 1000 + oi), 40 if quick else 400):
+            cases.append({"block": b, "opts": o, "_group": g, "kind": "load-store-blocks", "_cpu": 60})
         for i in range(n_rand):
             b, k = gen.gen_block(rnd, "short")
             cases.append({"block": b[:6], "opts": o, "_group": g, "kind": "short-random", "_cpu": 60})
